@@ -554,7 +554,10 @@ class InternationalizationExtension(Extension):
             # mark the return value as safe if we are in an
             # environment with autoescaping turned on
             node = nodes.MarkSafeIfAutoescape(node)
-            if variables:
+
+            # when no variable is referenced the text was not escaped
+            # for formatting above and must not be formatted either
+            if variables and vars_referenced:
                 node = nodes.Mod(
                     node,
                     nodes.Dict(
